@@ -21,11 +21,11 @@ import (
 type PropSpec struct {
 	ID          string   `json:"id"`
 	Level       string   `json:"level"`
-	SweepPkgs   []string `json:"sweep_pkgs,omitempty"`  // zero-annotation panic sweep over these packages (regexps on function names)
-	SweepSkip   []string `json:"sweep_skip,omitempty"`  // function-name regexps excluded from the sweep (listed in the evidence)
-	ExtraFns    []string `json:"extra_fns,omitempty"`   // additional function-name regexps whose obligations count for this property
-	Harness     *Harness `json:"harness,omitempty"`     // bounded stand-in / replay search
-	Inventory   []string `json:"inventory,omitempty"`   // named inventory checks (see inventory.go)
+	SweepPkgs   []string `json:"sweep_pkgs,omitempty"` // zero-annotation panic sweep over these packages (regexps on function names)
+	SweepSkip   []string `json:"sweep_skip,omitempty"` // function-name regexps excluded from the sweep (listed in the evidence)
+	ExtraFns    []string `json:"extra_fns,omitempty"`  // additional function-name regexps whose obligations count for this property
+	Harness     *Harness `json:"harness,omitempty"`    // bounded stand-in / replay search
+	Inventory   []string `json:"inventory,omitempty"`  // named inventory checks (see inventory.go)
 	TrustedBase []string `json:"trusted_base,omitempty"`
 	Assumptions []string `json:"assumptions,omitempty"`
 	Explanation string   `json:"explanation,omitempty"`
@@ -35,8 +35,8 @@ type PropSpec struct {
 }
 
 type Harness struct {
-	Dir      string   `json:"dir"`  // directory under /verif/replay
-	Run      string   `json:"run"`  // -run regexp
+	Dir      string   `json:"dir"` // directory under /verif/replay
+	Run      string   `json:"run"` // -run regexp
 	Quick    []string `json:"quick,omitempty"`
 	Thorough []string `json:"thorough,omitempty"`
 	TimeoutS int      `json:"timeout_s,omitempty"`
